@@ -323,6 +323,36 @@ def _scan_items(src, st, lo, hi, parent, out):
         attr_start = None
 
 
+def top_consts(src):
+    """top-level `const NAME: T = EXPR;` items of a source file: {NAME: (start, end)} (offsets of `const` .. `;`)"""
+    st = sig_tokens(lex(src))
+    out = {}
+    depth = 0
+    i = 0
+    while i < len(st):
+        t = st[i]
+        if t.kind == "punct" and t.text in OPEN:
+            depth += 1
+        elif t.kind == "punct" and t.text in CLOSE:
+            depth -= 1
+        elif depth == 0 and is_id(t, "const") and i + 2 < len(st) and is_id(st[i + 1]) and is_p(st[i + 2], ":") and not is_id(st[i + 1], "fn"):
+            q = i
+            d2 = 0
+            while q < len(st):
+                if st[q].kind == "punct" and st[q].text in OPEN:
+                    d2 += 1
+                elif st[q].kind == "punct" and st[q].text in CLOSE:
+                    d2 -= 1
+                elif d2 == 0 and is_p(st[q], ";"):
+                    break
+                q += 1
+            if q < len(st):
+                out[st[i + 1].text] = (t.start, st[q].end)
+                i = q
+        i += 1
+    return out
+
+
 def _join_header(texts):
     out = ""
     for s in texts:
